@@ -191,6 +191,18 @@ theorem readRequest_wf (rq : Req) (wf : Spec.WellFramed rq) (sane : Spec.Primiti
     right; left
     simp [f2, f3, f5, firstDrain_ok rq.laterReads hl]
 
+@[simp] theorem refusal_gen_version (rq : Req) (s : Served) : refusal G.versionReplyFirst rq s = s := by
+  have : G.versionReplyFirst = true := by decide
+  simp [refusal, this]
+
+@[simp] theorem refusal_gen_validation (rq : Req) (s : Served) : refusal G.validationReplyFirst rq s = s := by
+  have : G.validationReplyFirst = true := by decide
+  simp [refusal, this]
+
+@[simp] theorem refusal_gen_init (rq : Req) (s : Served) : refusal G.initReplyFirst rq s = s := by
+  have : G.initReplyFirst = true := by decide
+  simp [refusal, this]
+
 theorem serveOne_wf (rq : Req) (wf : Spec.WellFramed rq) (sane : Spec.PrimitivesSane G rq) :
     Spec.AnsweredAndServing (serveOne G rq) := by
   have hrr := readRequest_wf rq wf sane
@@ -221,7 +233,7 @@ theorem serveOne_wf (rq : Req) (wf : Spec.WellFramed rq) (sane : Spec.Primitives
             (match (if rq.staticShm then Ex.ok true else maybeAttach G rq) with
              | .raises _ => escapes
              | _ => match rq.call with
-               | .raises e => if caught G G.methodCall e then ⟨.replyContinue, .methodError, true⟩ else ⟨.replyStop, .none, true⟩
+               | .raises e => if caught G G.methodCall e then refusal G.initReplyFirst rq ⟨.replyContinue, .methodError, true⟩ else ⟨.replyStop, .none, true⟩
                | _ => ⟨.replyContinue, .value, true⟩) := by
           rw [hb]
           cases hc : rq.call with
@@ -368,13 +380,14 @@ theorem tables_guarded :
     (∀ e : Exc, (isA Tables.gen e .StopIteration = true ∨ isA Tables.gen e .OSError = true ∨ isA Tables.gen e .ValueError = true) →
       caught Tables.gen Tables.gen.resolveConvert e = true ∨ isA Tables.gen e .ValueError = true) ∧
     (∀ e : Exc, isA Tables.gen e .ValueError = true → caught Tables.gen Gen.C05.drainFreeGuard e = true) ∧
+    Tables.gen.versionReplyFirst = true ∧ Tables.gen.validationReplyFirst = true ∧ Tables.gen.initReplyFirst = true ∧
     caught Tables.gen Tables.gen.traceDecode .UnicodeDecodeError = true ∧
     caught Tables.gen Tables.gen.firstRead .StopIteration = true ∧ caught Tables.gen Tables.gen.firstRead .IPCError = true ∧
     Tables.gen.firstReadDrains = true ∧ caught Tables.gen Tables.gen.drainSkips .IPCError = true ∧
     caught Tables.gen Tables.gen.firstDrainSkips .IPCError = true ∧
     caught Tables.gen Tables.gen.firstDrainEnds .StopIteration = true ∧
     caught Tables.gen Tables.gen.firstDrainEnds .IPCError = false :=
-  ⟨Aux.guard_exception, Aux.guard_attach, Aux.guard_value, Aux.guard_convert, by decide, Aux.guard_resolveConvert, (by intro e; cases e <;> decide), by decide, by decide, by decide, by decide, by decide, by decide,
+  ⟨Aux.guard_exception, Aux.guard_attach, Aux.guard_value, Aux.guard_convert, by decide, Aux.guard_resolveConvert, (by intro e; cases e <;> decide), by decide, by decide, by decide, by decide, by decide, by decide, by decide, by decide, by decide,
    by decide, by decide⟩
 
 /-- `Spec.WellFramedAnswered`: every well-framed request — any metadata, columns, rows, segment names, pointer values;
@@ -398,7 +411,7 @@ theorem C05_garbage : Spec.NeverLeftWaiting Tables.gen := by
   | ok u =>
     cases u
     simp only
-    (repeat' split) <;> simp [escapes]
+    (repeat' split) <;> simp [escapes, Aux.refusal_gen_version, Aux.refusal_gen_validation, Aux.refusal_gen_init]
 
 /-- bytes pyarrow rejects as ArrowInvalid — at `open_stream`, at the first read, or while the rest of the stream is
 drained — are answered with an error stream before the connection ends (never silently) -/
@@ -434,13 +447,13 @@ example : Spec.WellFramed
       { openStream := .ok, firstRead := .ok, laterReads := [.raises .IPCError, .ok], hasMethod := true, methodText := true,
         version := .current, traceparent := .undecodable, tracestate := .absent, shmName := .text, shmSize := .numeric,
         isPointer := true, staticShm := false, shmOpen := .raises .FileNotFoundError, allocInit := .raises .StructError, resolve := .ok, deser := .raises .StopIteration, release := .ok,
-        ncols := 2, rows := 0, asPy := .raises .OverflowError, isTransportOptions := false, methodKnown := true,
+        ncols := 2, rows := 0, asPy := .raises .OverflowError, isTransportOptions := false, streamNoHeader := true, peerWaits := true, methodKnown := true,
         versionCheck := .ok, validate := .raises .TypeError, call := .ok } ∧
     Spec.PrimitivesSane Tables.gen
       { openStream := .ok, firstRead := .ok, laterReads := [.raises .IPCError, .ok], hasMethod := true, methodText := true,
         version := .current, traceparent := .undecodable, tracestate := .absent, shmName := .text, shmSize := .numeric,
         isPointer := true, staticShm := false, shmOpen := .raises .FileNotFoundError, allocInit := .raises .StructError, resolve := .ok, deser := .raises .StopIteration, release := .ok,
-        ncols := 2, rows := 0, asPy := .raises .OverflowError, isTransportOptions := false, methodKnown := true,
+        ncols := 2, rows := 0, asPy := .raises .OverflowError, isTransportOptions := false, streamNoHeader := true, peerWaits := true, methodKnown := true,
         versionCheck := .ok, validate := .raises .TypeError, call := .ok } := by
   refine ⟨⟨rfl, Or.inl rfl, by simp⟩, ?_⟩
   refine ⟨?_, ?_, ?_, ?_, ?_, ?_, ?_, ?_⟩ <;> simp <;> decide
